@@ -79,8 +79,9 @@ check(
     'Stub physics (1-dof test equation); restart/step-size decisions come from the script. Sampling, not proof. Known finding F02 '
     '(sliver step at Tend), F09 (collocation-update lag in multi-step runs) and F18 (ParaDiag solves to the end of its block) are reported as '
     'KNOWN-FINDING. controller_ParaDiag_nonMPI is driven with fixed steps; inside a ParaDiag block start values are compared up to 1e3*restol. '
-    'MPI controller covered by C08.',
-    'deterministic simulation: seeded restart/step-size fault histories on the real serial controller, history check of the recorded accepted-step sequence',
+    '8 % of the histories drive the real controller_MPI on the simulated MPI (1-5 time ranks, seeded schedule), the merged observations of all ranks are judged by the same oracle; '
+    'MPI runs that deadlock or abort are left to C08.',
+    'deterministic simulation: seeded restart/step-size fault histories on the real serial, ParaDiag and (simulated-)MPI controllers, history check of the recorded accepted-step sequence',
     'DESIGN 3 (C06), 2.2',
 )
 
@@ -151,14 +152,16 @@ check(
     'C13',
     'blocksim',
     'exploration',
-    'RUN-LEVEL CLAUSE ONLY. Histories of one or more run() legs on one real controller_nonMPI (restart/step-size histories, real multi-level '
+    'Run-level clause: histories of one or more run() legs on one real controller_nonMPI (restart/step-size histories, real multi-level '
     'physics, adaptive SDC/RK runs, DAE sweepers that update nodes in place) with LogSolution/LogSolutionAfterIteration and with in-place '
     'corruptions of iterates by a hook (the way Resilience.FaultInjector writes); a spy keeps every logged array with its digest at logging '
     'time; the caller\'s initial value, every returned value, every logged array and the end value object of every finished step are '
-    'compared byte for byte again after the last leg.',
-    'The data-type algebra clause of C13 (operator value semantics, copy construction, component views, abs as max norm) is NOT claimed: pure '
-    'functions of their operands, no schedule/history/fault. Latent aliasing without observable change is not reported. MPI buffer clause: C08.',
-    'deterministic simulation: seeded multi-run histories with in-place fault injection, byte-level history check of caller, returned and logged values',
+    'compared byte for byte again after the last leg. Data-type clause: seeded histories of constructions, aliases, views, operations, augmented '
+    'assignments and writes on a pool of names over mesh / imex_mesh / comp2_mesh / MeshDAE / particles.position / acceleration, every name compared '
+    'with a plain-numpy reference model after every operation.',
+    'The data-type part injects no fault and has no schedule (operation histories against a reference model only: the weakest form of the technique); '
+    'cupy/petsc/fenics/firedrake data types are not importable here. Latent aliasing without observable change is not reported. MPI buffer clause: C08.',
+    'deterministic simulation: seeded multi-run histories with in-place fault injection, byte-level history check of caller, returned and logged values; seeded aliasing histories against a reference model',
     'DESIGN 3 (C13)',
 )
 
